@@ -14,6 +14,11 @@ import Anko.Gen.CallFlow
 import Anko.Props.CallFlowTable
 import Anko.Gen.ExprFlow
 import Anko.Props.ExprFlowTable
+import Anko.Props.Tie.ExprFlow
+import Anko.Props.Tie.CallFlow
+import Anko.Props.Tie.ContFlow
+import Anko.Props.Tie.SingleStmtFlow
+import Anko.Props.Tie.BindFlow
 
 set_option linter.unusedSectionVars false
 set_option linter.unusedSimpArgs false
@@ -306,7 +311,7 @@ conditions it stands under, is the one written down in Props/CallFlowTable next 
 expression is evaluated (once, in source order), where the count is checked (before any argument), where a conversion can end the
 call, which path a callee takes. A new fast path, an argument evaluated in another place or a second time, a check moved behind an
 evaluation makes the tables differ. -/
-theorem calls_evaluate_their_arguments_as_modelled : Gen.CallFlow.leaves = Tables.callFlow := by decide +kernel
+theorem calls_evaluate_their_arguments_as_modelled : Gen.CallFlow.leaves = Tables.callFlow := Tie.callFlow
 
 /-! ### The expression dispatcher and the forms with several operands in the source (regenerated: Gen/ExprFlow)
 
@@ -315,6 +320,19 @@ list literal, map literal, `?:`, `??`, assignment-expression and `in` functions,
 Props/ExprFlowTable next to the model's evalExpr: which operand is evaluated where, once, and which is skipped. An operand evaluated again, a reordered
 pair, a condition tested on another value shows as a difference. Any edit of these functions - also a harmless one - breaks this obligation by name; the check then
 searches model and implementation for a failing input (DESIGN.md 13.3). -/
-theorem expressions_evaluate_their_operands_as_modelled : Gen.ExprFlow.leaves = Tables.exprFlow := by decide +kernel
+theorem expressions_evaluate_their_operands_as_modelled : Gen.ExprFlow.leaves = Tables.exprFlow := Tie.exprFlow
+
+/-! ### Shared source ties
+
+The code this property is anchored in is also written down, leaf statement by leaf statement, by the tables below (each decided once in
+Props/Tie, `decide +kernel`, against the table regenerated from /repo on this run). A change of that code breaks the tie by name here too, and the check of
+this property then searches for a failing input - so a change that breaks this property through code whose primary table belongs to another
+property is not overlooked. -/
+/-- the container paths (index, slice, len, member, make, assignment targets, delete) -/
+theorem source_tie_ContFlow : Gen.ContFlow.leaves = Tables.contFlow := Tie.contFlow
+/-- the statement dispatcher, return, defer, deferred calls -/
+theorem source_tie_SingleStmtFlow : Gen.SingleStmtFlow.leaves = Tables.singleStmtFlow := Tie.singleStmtFlow
+/-- function literals, module, var and assignment statements -/
+theorem source_tie_BindFlow : Gen.BindFlow.leaves = Tables.bindFlow := Tie.bindFlow
 
 end Anko.C07
